@@ -144,10 +144,10 @@ def run(repo, rep):
     # ---------------------------------------------------------------- X3
     send = repo.func('asceprovider', 'Association.send')
     rep.analysed(send)
-    ok = any(isinstance(n, ast.Call) and isinstance(n.func, ast.Attribute) and n.func.attr == 'encode' and len(n.args) == 2
-             and norm(n.args[1]) == 'self.max_pdu_length' for n in ast.walk(send.node))
-    rep.check(ok, 'C10.X3', 'asceprovider:Association.send:limit-applied', send.loc(),
-              'encode(pc_id, self.max_pdu_length) on every send', 'send does not pass the negotiated self.max_pdu_length to encode')
+    from .c06 import send_limit_problems
+    p3 = send_limit_problems(repo, hier)
+    rep.check(not p3, 'C10.X3', 'asceprovider:Association.send:limit-applied', send.loc(),
+              'encode(pc_id, self.max_pdu_length) on every send', '; '.join(p3))
 
     # ---------------------------------------------------------------- X4
     for fname in ('fragment', 'fragment_file'):
